@@ -298,16 +298,19 @@ class Prod(fm.TimeComponent):
 
 
 class Cons(fm.TimeComponent):
-    def __init__(self, name, step, log):
+    def __init__(self, name, step, log, twice=False):
         super().__init__()
         self._name, self.step, self.log = name, step * H, log
         self._time = TH(0)
+        self.twice = twice     # a second input on the same source, read in the same update for the same time
 
     def _next_time(self):
         return self.time + self.step
 
     def _initialize(self):
         self.inputs.add(name="In", time=self.time, grid=fm.NoGrid(), units=None)
+        if self.twice:
+            self.inputs.add(name="In2", time=self.time, grid=fm.NoGrid(), units=None)
         self.create_connector()
 
     def _connect(self, st):
@@ -319,6 +322,8 @@ class Cons(fm.TimeComponent):
     def _update(self):
         nt = self.time + self.step
         v = self.inputs["In"].pull_data(nt)
+        if self.twice:
+            self.inputs["In2"].pull_data(nt)
         self._time = nt
         self.log.append((self.name, hours(nt), float(np.ravel(fm.data.get_magnitude(v))[0]), str(v.units)))
 
@@ -345,6 +350,19 @@ def gen_ws(rng):
     return {"part": "ws", "pairs": pairs, "csteps": csteps, "end": rng.randint(4, 12), "order_flip": rng.random() < 0.5}
 
 
+def gen_ws_dpull(rng):
+    """a merger with a DelayToPull on one value link, read by two consumers that ask for the same times"""
+    c = gen_ws(rng)
+    for p in c["pairs"]:
+        p.pop("nan", None)
+        p["w"] = p["w"] or 1
+    c["pairs"][0]["dpull"] = True
+    step = rng.choice([1, 2, 3])
+    c["csteps"] = [step] if rng.random() < 0.6 else [step, step]
+    c["twice"] = True     # every consumer reads the merger through two inputs in one update
+    return c
+
+
 def run_ws(case):
     log = []
     prods, weights = [], []
@@ -352,16 +370,23 @@ def run_ws(case):
         prods.append(Prod(f"V{i}", p["units"], 1, lambda h, p=p: float("nan") if p.get("nan") else float(p["a"] * h + p["b"])))
         weights.append(Prod(f"W{i}", "", 1, lambda h, p=p: p["w"] / p["wd"]))
     ws = fm.components.WeightedSum(inputs=[f"in{i}" for i in range(len(prods))])
-    cons = [Cons(f"C{k}", s, log) for k, s in enumerate(case["csteps"])]
+    cons = [Cons(f"C{k}", s, log, twice=bool(case.get("twice"))) for k, s in enumerate(case["csteps"])]
     comps = prods + weights + [ws] + cons
     if case["order_flip"]:
         comps = comps[::-1]
     comp = fm.Composition(comps)
     for i, (p, w) in enumerate(zip(prods, weights)):
-        p.outputs["Out"] >> ws.inputs[f"in{i}"]
+        if case["pairs"][i].get("dpull"):
+            # a DelayToPull upstream of the merger: every *repeated* request for one time must be answered from the merger's
+            # memo, or the adapter's request history advances twice per step
+            p.outputs["Out"] >> fm.adapters.DelayToPull(steps=1) >> ws.inputs[f"in{i}"]
+        else:
+            p.outputs["Out"] >> ws.inputs[f"in{i}"]
         w.outputs["Out"] >> ws.inputs[f"in{i}_weight"]
     for c in cons:
         ws.outputs["WeightedSum"] >> c.inputs["In"]
+        if case.get("twice"):
+            ws.outputs["WeightedSum"] >> c.inputs["In2"]
     try:
         limited(120, comp.run, end_time=TH(case["end"]))
         return {"error": None, "log": log}
